@@ -373,6 +373,8 @@ pub fn plan(pre: &Snap, root: &[u8], inv: &Inv) -> Plan {
         }
     };
     let mut mapped: Vec<Mapped> = vec![];
+    // per source: (given in contents form, resolved location, last component)
+    let mut tops: Vec<(bool, Vec<u8>, Vec<u8>)> = vec![];
     for (ai, s) in sources.iter().enumerate() {
         let s_rel = match rel_to_root(root, s) {
             Some(r) => r,
@@ -415,9 +417,7 @@ pub fn plan(pre: &Snap, root: &[u8], inv: &Inv) -> Plan {
             let last = basename(raw);
             last == b"." || last == b".."
         };
-        if contents_form && sources.len() > 1 {
-            return Plan::Unmodelled("several sources, one of them in contents form".into());
-        }
+        tops.push((contents_form, s_real.clone(), b.clone()));
         let troot = if d_is_dir && !inv.no_target_dir && !contents_form { join(&d_real, &b) } else { d_real.clone() };
         if sm.kind == K::D && d_exists && !d_is_dir {
             return Plan::Reject("directory onto an existing non-directory".into());
@@ -439,6 +439,34 @@ pub fn plan(pre: &Snap, root: &[u8], inv: &Inv) -> Plan {
                 }
             } else {
                 mapped.push(Mapped { src: s_real.clone(), dst: troot.clone(), kind: sm.kind, arg: ai, top: true });
+            }
+        }
+    }
+    // a source in contents form is merged into the destination itself: it must not bring an entry that
+    // another source (by its name, or by an entry of its own if it is in contents form too) also maps there
+    for (i, (cf, real, _)) in tops.iter().enumerate() {
+        if !*cf {
+            continue;
+        }
+        let dir = match resolve(pre, root, real, true) {
+            Res::Found(p) => p,
+            _ => continue,
+        };
+        let mine: Vec<Vec<u8>> = children(pre, &dir).iter().map(|c| basename(c).to_vec()).collect();
+        for (j, (cf2, real2, base2)) in tops.iter().enumerate() {
+            if i == j {
+                continue;
+            }
+            let clash = if *cf2 {
+                match resolve(pre, root, real2, true) {
+                    Res::Found(p2) => children(pre, &p2).iter().any(|c| mine.iter().any(|n| n.as_slice() == basename(c))),
+                    _ => false,
+                }
+            } else {
+                mine.iter().any(|n| n == base2)
+            };
+            if clash {
+                return Plan::Reject("sources overlap inside the destination".into());
             }
         }
     }
